@@ -73,6 +73,12 @@ pub struct Runner {
     pub local: Stats,
     opts: SnapOpts,
     dead: bool,
+    /// indices whose snapshot was replaced by an observed (possibly corrupted) state
+    redo_unreliable: std::collections::BTreeSet<usize>,
+    /// the current state descends from a state some undo/redo failed to restore
+    corrupt: bool,
+    /// kind of the last real operation (key of replica signatures)
+    last_kind: String,
 }
 
 fn snap_of(um: &UserModel, o: SnapOpts) -> Result<Snap, String> {
@@ -100,6 +106,9 @@ impl Runner {
             local: Stats::default(),
             opts,
             dead: false,
+            redo_unreliable: Default::default(),
+            corrupt: false,
+            last_kind: "-".into(),
         }
     }
 
@@ -111,6 +120,9 @@ impl Runner {
         }
         self.snaps[self.cursor] = Some(post);
         self.walk_clean = false;
+        for i in 0..self.snaps.len() {
+            self.redo_unreliable.insert(i);
+        }
     }
 
     /// Is the current state a fixpoint of save/reload/evaluate? A state that is not was
@@ -168,6 +180,7 @@ impl Runner {
             Op::Reload => return self.reload(),
             _ => {}
         }
+        self.last_kind = kind.clone();
         let pre = match snap_of(&self.um, self.opts) {
             Ok(s) => s,
             Err(p) => {
@@ -284,14 +297,24 @@ impl Runner {
                                         ),
                                     });
                                 }
-                                // resynchronise on the observed state
+                                // resynchronise on the observed state; it is what later undos
+                                // must come back to, but it is not what a redo arriving from
+                                // below has to reproduce
                                 self.snaps[self.cursor] = Some(post);
+                                self.redo_unreliable.insert(self.cursor);
+                                self.corrupt = true;
                             } else {
                                 self.local.count("undo_checked_ok");
+                                if !self.redo_unreliable.contains(&self.cursor) {
+                                    // back on a verified original state
+                                    self.corrupt = false;
+                                }
                             }
                         }
                         None => {
                             self.snaps[self.cursor] = Some(post);
+                            self.redo_unreliable.insert(self.cursor);
+                            self.corrupt = true;
                         }
                     }
                 } else if let Err(e) = &res {
@@ -320,7 +343,14 @@ impl Runner {
                         Some(exp) => {
                             if *exp != post {
                                 let dd = snap::diff(exp, &post);
-                                if which == Which::Redo && self.walk_clean && viol.is_none() {
+                                let checkable = self.walk_clean
+                                    && !self.corrupt
+                                    && !self.redo_unreliable.contains(&self.cursor);
+                                if !checkable {
+                                    self.redo_unreliable.insert(self.cursor);
+                                    self.corrupt = true;
+                                }
+                                if which == Which::Redo && checkable && viol.is_none() {
                                     viol = Some(Viol {
                                         check: "redo".into(),
                                         sig: format!(
@@ -334,11 +364,18 @@ impl Runner {
                                     });
                                 }
                                 self.snaps[self.cursor] = Some(post);
-                            } else if self.walk_clean {
+                            } else if self.walk_clean
+                                && !self.corrupt
+                                && !self.redo_unreliable.contains(&self.cursor)
+                            {
                                 self.local.count("redo_checked_ok");
                             }
                         }
-                        None => self.snaps[self.cursor] = Some(post),
+                        None => {
+                            self.snaps[self.cursor] = Some(post);
+                            self.redo_unreliable.insert(self.cursor);
+                            self.corrupt = true;
+                        }
                     }
                 } else if let Err(e) = &res {
                     if which == Which::Redo
@@ -364,12 +401,21 @@ impl Runner {
                             let k = u1 - u0;
                             self.snaps.truncate(self.cursor + 1);
                             self.made_by.truncate(self.cursor + 1);
+                            let cur = self.cursor;
+                            self.redo_unreliable.retain(|i| *i <= cur);
                             for _ in 1..k {
                                 self.snaps.push(None);
                                 self.made_by.push(kind.clone());
                             }
                             self.snaps.push(Some(post.clone()));
                             self.made_by.push(kind.clone());
+                            if self.corrupt {
+                                // derived from a state an earlier undo/redo failed to restore:
+                                // a later redo from a clean state need not reproduce it
+                                for i in self.cursor + 1..=self.cursor + k {
+                                    self.redo_unreliable.insert(i);
+                                }
+                            }
                             self.cursor += k;
                             self.walk_clean = true;
                             if which == Which::Redo && r1 != 0 && viol.is_none() {
@@ -457,7 +503,7 @@ impl Runner {
                 self.dead = true;
                 Some(Viol {
                     check: "replica-panic".into(),
-                    sig: format!("replica-panic|{}", util::panic_site(&p)),
+                    sig: format!("replica-panic|{}|", util::panic_site(&p)),
                     detail: format!("apply_external_diffs panicked: {p}"),
                 })
             }
@@ -465,7 +511,7 @@ impl Runner {
                 self.dead = true;
                 Some(Viol {
                     check: "replica-apply".into(),
-                    sig: format!("replica-apply|{}", util::erase_digits(&e)),
+                    sig: format!("replica-apply|{}|{}", self.last_kind, util::erase_digits(&e)),
                     detail: format!("apply_external_diffs failed on bytes the primary produced: {e}"),
                 })
             }
@@ -477,7 +523,11 @@ impl Runner {
                     let dd = snap::diff(&a, &b);
                     Some(Viol {
                         check: "replica-diverged".into(),
-                        sig: format!("replica-diverged|{}", snap::categories(&dd).join(",")),
+                        sig: format!(
+                            "replica-diverged|{}|{}",
+                            self.last_kind,
+                            snap::categories(&dd).join(",")
+                        ),
                         detail: format!(
                             "replica differs from primary after applying all flushed batches (primary -> replica): {}",
                             snap::describe(&dd, 6)
@@ -499,12 +549,12 @@ impl Runner {
         match r {
             Err(p) => Some(Viol {
                 check: "reload-panic".into(),
-                sig: format!("reload-panic|{}", util::panic_site(&p)),
+                sig: format!("reload-panic|{}|", util::panic_site(&p)),
                 detail: format!("from_bytes(to_bytes()) panicked: {p}"),
             }),
             Ok(Err(e)) => Some(Viol {
                 check: "reload-error".into(),
-                sig: format!("reload-error|{}", util::erase_digits(&e)),
+                sig: format!("reload-error|{}|", util::erase_digits(&e)),
                 detail: format!("from_bytes(to_bytes()) failed: {e}"),
             }),
             Ok(Ok(mut other)) => {
@@ -512,7 +562,7 @@ impl Runner {
                 if other.get_model().workbook != self.um.get_model().workbook {
                     return Some(Viol {
                         check: "reload-struct".into(),
-                        sig: "reload-struct".into(),
+                        sig: "reload-struct|-|".into(),
                         detail: "workbook after to_bytes/from_bytes is not equal (PartialEq) to the original"
                             .into(),
                     });
@@ -524,7 +574,7 @@ impl Runner {
                     let dd = snap::diff(&a, &b);
                     Some(Viol {
                         check: "reload-values".into(),
-                        sig: format!("reload-values|{}", snap::categories(&dd).join(",")),
+                        sig: format!("reload-values|-|{}", snap::categories(&dd).join(",")),
                         detail: format!(
                             "evaluation after reload differs (original -> reloaded): {}",
                             snap::describe(&dd, 6)
@@ -750,6 +800,8 @@ fn run_which(ctx: &Ctx, which: Which) -> Stats {
     // tolerated: the signature is prefixed so that no known-finding pattern matches it),
     // odd cases run the full workload (known signatures tolerated, anything else reported).
     let two_pass = !ctx.avoid.is_empty();
+    // exploration aid: run only clean-room cases
+    let clean_only = std::env::var("VERIF_CLEAN_ONLY").is_ok();
     let open: Vec<crate::known::Finding> = ctx
         .findings
         .iter()
@@ -758,7 +810,7 @@ fn run_which(ctx: &Ctx, which: Which) -> Stats {
         .collect();
     crate::par::run_cases(n, ctx.threads, budget, |i, st| {
         let mut rng = util::rng_for(seed, stream, i);
-        let clean = two_pass && i % 2 == 0;
+        let clean = two_pass && (i % 2 == 0 || clean_only);
         let avoid: Vec<&str> = if clean {
             ctx.avoid_alt(i / 2)
         } else {
